@@ -52,7 +52,15 @@ fn run_history(h: &Hist, st: &mut Stats) -> Result<(), String> {
         Kind::DespiteSized(..) => "despite_method_with_added_content_length",
         _ => "plain_sized_request",
     });
-    let mut s = Sender::new(h.api, kind)?;
+    let mut s = match Sender::new(h.api, kind) {
+        Ok(s) => s,
+        Err(e) if e == crate::drive::sender::NO_BODY_STATE => {
+            // a flow that has no body state for a zero-length body: nothing to write, nothing to finish
+            st.class("zero_length_body_without_body_state");
+            return Ok(());
+        }
+        Err(e) => return Err(e),
+    };
     if s.is_chunked() == Some(true) {
         return Err("content-length body reported as chunked".into());
     }
